@@ -1,5 +1,6 @@
 import Datacake.Model.Cluster
 import Datacake.Model.Membership
+import Datacake.Model.Replication
 import Datacake.Spec.Lww
 import Driver.Actor
 /- Domain `cluster`: N-node cluster model (C01, C06, C19). -/
@@ -10,7 +11,7 @@ structure State where
   c : Cluster := {}
   known : Bool := true      -- false once the case used an operation the model cannot replay (`bulk`)
   down : List Nat := []     -- nodes that refuse connections (crashed but still selected)
-  dists : List (Nat × List Membership.Member) := []   -- live_members of the distributor of node i: (member id, node index)
+  dists : List (Nat × Replication.Dist (Nat × Nat × List Nat)) := []   -- the task distributor of node i (members: (member id, node index))
   -- a node holds many keyspaces; they share nothing but the clock and the membership, so the cluster model is instantiated
   -- once per keyspace: `c` is the current one, `others` the rest, `cur` its name
   others : List (String × Cluster) := []
@@ -160,26 +161,39 @@ def step (st : State) (toks : List String) : State × String :=
     | none => (st, "bad-op")
   | ["dist-start", i] =>
     match i.toNat? with
-    | some i => ({ st with dists := (i, []) :: st.dists.filter (·.1 ≠ i) }, "ok")
+    | some i => ({ st with dists := (i, {}) :: st.dists.filter (·.1 ≠ i) }, "ok")
     | none => (st, "bad-op")
-  | ["dist-burst", _, _] => (st, "ok")     -- writes to another keyspace: queued in the distributor, not part of this keyspace's model
+  | ["dist-burst", i, n] =>
+    -- n writes to another keyspace sit in the distributor's queue (they go out with the next tick, to the members live then;
+    -- that keyspace is not part of this keyspace's model)
+    match i.toNat?, n.toNat? with
+    | some i, some n =>
+      let d := ((st.dists.find? (·.1 == i)).map (·.2)).getD {}
+      let d' := (List.range n).foldl (fun acc k => acc.enqueue (.mutation (.put "burst" (1000000 + k, 0, [0])))) d
+      ({ st with dists := (i, d') :: st.dists.filter (·.1 ≠ i) }, "ok")
+    | _, _ => (st, "bad-op")
   | ["dist-change", i, l, j] =>
     match i.toNat?, parseMembers l, parseMembers j with
     | some i, some l, some j =>
-      let live := ((st.dists.find? (·.1 == i)).map (·.2)).getD []
-      -- `for member in left { remove }; for member in joined { insert }`
-      let live' := Membership.applyDelta live ⟨j, l⟩
-      ({ st with dists := (i, live') :: st.dists.filter (·.1 ≠ i) }, "ok")
+      let d := ((st.dists.find? (·.1 == i)).map (·.2)).getD {}
+      -- the change is queued; the next tick applies it (`for member in left { remove }; for member in joined { insert }`)
+      ({ st with dists := (i, d.enqueue (.change ⟨j, l⟩)) :: st.dists.filter (·.1 ≠ i) }, "ok")
     | _, _, _ => (st, "bad-op")
   | "dist-put" :: i :: id :: d :: rest =>
     match i.toNat?, id.toNat?, StoreDom.genData d, kvArg rest "ts" with
     | some i, some id, some bytes, some ts =>
-      let live := ((st.dists.find? (·.1 == i)).map (·.2)).getD []
-      let targets := StoreDom.sortNat ((live.map (·.2)).eraseDups)
-      let iss : Issued := .put (id, ts, bytes)
-      let c1 := targets.foldl (fun acc t => (applyAt acc t 0 iss).1) c
-      let c1 := { c1 with ops := c1.ops ++ [(i, iss)] }
-      ({ st with c := c1 }, "recv " ++ (if targets.isEmpty then "-" else ",".intercalate (targets.map toString)))
+      let dist := ((st.dists.find? (·.1 == i)).map (·.2)).getD {}
+      -- the write is queued, then the interval fires (earlier ticks change nothing: `tick_split`)
+      let (dist', batch) := (dist.enqueue (.mutation (.put st.cur (id, ts, bytes)))).tick
+      match batch with
+      | none => (st, "model-error: a queued mutation produced no batch")
+      | some b =>
+        let targets := StoreDom.sortNat ((b.targets.map (·.2)).eraseDups)
+        let docs := (Replication.lookup b.modified st.cur).getD []
+        let c1 := docs.foldl (fun acc doc => targets.foldl (fun acc t => (applyAt acc t 0 (.put doc)).1) acc) c
+        let c1 := { c1 with ops := c1.ops ++ docs.map (fun doc => (i, Issued.put doc)) }
+        ({ st with c := c1, dists := (i, dist') :: st.dists.filter (·.1 ≠ i) },
+          "recv " ++ (if targets.isEmpty then "-" else ",".intercalate (targets.map toString)))
     | _, _, _, _ => (st, "bad-op")
   | ["advance", _] => (st, "ok")      -- time is not part of the model: stamps come from the implementation
   | ["failnext", j] =>
